@@ -115,6 +115,10 @@ def run(module, cfg, *, workers=1, env=None, simulate=None, depth=None, seed=Non
         m = _RE_STATES.match(ln)
         if m:
             res.generated, res.distinct = int(m.group(1)), int(m.group(2))
+        m = re.match(r"^The number of states generated: (\d+)", ln)
+        if m and simulate is not None:
+            res.generated = int(m.group(1))
+            res.distinct = max(res.distinct, 0)
         m = _RE_DEPTH.search(ln)
         if m:
             res.depth = int(m.group(1))
